@@ -2,6 +2,8 @@ package service_account
 
 import (
 	"fmt"
+	"math"
+	"math/bits"
 
 	types "github.com/New-JAMneration/JAM-Protocol/internal/types"
 	utils "github.com/New-JAMneration/JAM-Protocol/internal/utilities"
@@ -186,12 +188,24 @@ func CalcThresholdBalance(aI types.U32, aO types.U64, aF types.U64) types.U64 {
 	/*
 		a_t ∈ N_B ≡ B_S + B_I*a_i + B_L*a_o
 	*/
-	storage := types.U64(types.BasicMinBalance) + types.U64(types.U32(types.AdditionalMinBalancePerItem)*aI) + types.U64(types.AdditionalMinBalancePerOctet)*aO
-	if storage < aF {
+	// The sum is carried in 128 bits so that neither B_I*a_i (a_i is 32 bits wide)
+	// nor the addition of B_L*a_o can wrap around; a result that does not fit
+	// 64 bits saturates.
+	hi, lo := bits.Mul64(uint64(types.AdditionalMinBalancePerOctet), uint64(aO))
+	var carry, borrow uint64
+	lo, carry = bits.Add64(lo, uint64(types.AdditionalMinBalancePerItem)*uint64(aI), 0)
+	hi += carry
+	lo, carry = bits.Add64(lo, uint64(types.BasicMinBalance), 0)
+	hi += carry
+	lo, borrow = bits.Sub64(lo, uint64(aF), 0)
+	if hi < borrow {
 		// result < 0
 		return 0
 	}
-	return storage - aF
+	if hi-borrow != 0 {
+		return types.U64(math.MaxUint64)
+	}
+	return types.U64(lo)
 }
 
 /*
